@@ -291,6 +291,90 @@ fn plan_sym() {
     end_ledger();
 }
 
+/// C02 (receiving side): two multi-packet messages A (57 bytes: 24+32+1) and B (25 bytes: 24+1) from two
+/// senders whose packets interleave.  By the one-enqueue invariant (`send_plan_*`) only the header
+/// packets share a queue; follow-ups travel on each message's own channel — here B's follow-up even
+/// arrives before A's.  Each receive must return one whole message, in header order.
+fn interleaved(a_first: bool) {
+    setup(64);
+    env::set_block_is_violation(true);
+    let (s_fd, r_fd) = raw_pair();
+    let rx = rx_from_fd(r_fd);
+    let da = raw_pair();
+    let db = raw_pair();
+    let a: [u8; 57] = kani::any();
+    let b: [u8; 25] = kani::any();
+    if a_first {
+        assert!(inject(s_fd, Some(57), &a[..24], &[da.1]) > 0);
+        assert!(inject(s_fd, Some(25), &b[..24], &[db.1]) > 0);
+    } else {
+        assert!(inject(s_fd, Some(25), &b[..24], &[db.1]) > 0);
+        assert!(inject(s_fd, Some(57), &a[..24], &[da.1]) > 0);
+    }
+    assert!(inject(db.0, None, &b[24..], &[]) > 0);
+    assert!(inject(da.0, None, &a[24..56], &[]) > 0);
+    assert!(inject(da.0, None, &a[56..], &[]) > 0);
+    raw_close(da.0);
+    raw_close(da.1);
+    raw_close(db.0);
+    raw_close(db.1);
+    let (m1, _, _) = rx.recv().unwrap();
+    let (m2, _, _) = rx.try_recv().unwrap();
+    let (ga, gb) = if a_first { (&m1, &m2) } else { (&m2, &m1) };
+    assert!(ga.len() == 57 && gb.len() == 25, "C02: messages delivered whole, in the order their header packets were queued");
+    let i = any_usize_in(0, 56);
+    let j = any_usize_in(0, 24);
+    assert!(ga[i] == a[i], "C02: bytes of different messages mixed (message A)");
+    assert!(gb[j] == b[j], "C02: bytes of different messages mixed (message B)");
+    drop((m1, m2, rx));
+    raw_close(s_fd);
+    end_ledger();
+}
+
+/// C03: a SENDER handle of channel T travels inside a message queued on C while every other sender
+/// handle of T is gone.  sc: 0 = still queued, 1 = C's receiver dropped with it, 2 = unpacked and dropped
+fn sender_in_transit(sc: u8) {
+    setup(64);
+    env::set_block_is_violation(true);
+    let (ts, tr) = raw_pair();
+    let (cs, cr) = raw_pair();
+    let t_rx = rx_from_fd(tr);
+    let b: u8 = kani::any();
+    assert!(inject(ts, Some(1), &[b], &[]) > 0);
+    assert!(inject(cs, Some(1), &[7u8], &[ts]) > 0);
+    raw_close(ts); // the only local sender handle; one more is in transit
+    let c_rx = rx_from_fd(cr);
+    let (g, _, _) = t_rx.try_recv().unwrap();
+    assert!(g.len() == 1 && g[0] == b, "C03: message sent before comes first");
+    let r = t_rx.try_recv();
+    assert!(matches!(r, Err(ref e) if !e.channel_is_closed()), "C03: a sender handle in transit still counts: must read Empty, not Disconnected");
+    core::mem::forget(r);
+    if sc == 1 {
+        drop(c_rx);
+        let r = t_rx.try_recv();
+        assert!(matches!(r, Err(ref e) if e.channel_is_closed()), "C03: the queue carrying the last sender handle is gone: must read Disconnected");
+        core::mem::forget(r);
+    } else if sc == 2 {
+        let (_d, mut ch, _r) = c_rx.recv().unwrap();
+        assert!(ch.len() == 1);
+        let s = ch.pop().unwrap().to_sender();
+        let c: u8 = kani::any();
+        s.send(&[c], vec![], vec![]).unwrap();
+        let (g, _, _) = t_rx.try_recv().unwrap();
+        assert!(g.len() == 1 && g[0] == c, "C03/C04: the unpacked sender reaches the channel");
+        drop(s);
+        let r = t_rx.try_recv();
+        assert!(matches!(r, Err(ref e) if e.channel_is_closed()), "C03: last sender handle dropped: must read Disconnected");
+        core::mem::forget(r);
+        drop(c_rx);
+    } else {
+        drop(c_rx);
+    }
+    drop(t_rx);
+    raw_close(cs);
+    end_ledger();
+}
+
 /// C09 (b)(c)(d): the receiving end of T travels inside a message queued on C.
 /// sc: 0 = still in transit, 1 = C's receiver dropped with the message queued, 2 = unpacked first,
 /// 3 = unpacked onto descriptor number 0 and dropped again
@@ -347,6 +431,11 @@ fn transit<const L: usize>(sc: u8) {
 }
 
 harnesses! {
+    #[unwind(6)] fn recv_interleaved_ab() { interleaved(true) }
+    #[unwind(6)] fn recv_interleaved_ba() { interleaved(false) }
+    #[unwind(6)] fn sender_transit_queued() { sender_in_transit(0) }
+    #[unwind(6)] fn sender_transit_carrier_dropped() { sender_in_transit(1) }
+    #[unwind(6)] fn sender_transit_unpacked_dropped() { sender_in_transit(2) }
     // first fragment shrunk (16 < 24), follow-ups of 10, 20, 11 bytes (window 32)
     #[unwind(8)] fn recv_short_57_a() { short_followups::<57, 4>([16, 26, 46, 57], false) }
     // full first fragment, then 1-byte, full-window and short tail packets
